@@ -783,16 +783,11 @@ theorem sim_instantiate (n : Nat) (s s' : PySt) (m : St) (keys : List Nat) (is :
     · next hemp =>
       have hk : keys = [] := by simpa using hemp
       subst hk
-      split at ht
-      · next hst =>
-        have hst' : st = [] := by simpa using hst
-        subst hst'
-        simp only [Option.some.injEq] at ht; subst ht
-        exact sim_inst_core s m _ [] (Or.inl rfl) (.proved a) (.proved a) [] [] [] hR hSh hC hnd
-          hs (by simp [PySt.takePlugs]) (by simp) rfl
-          (by simpa [TTerm.body] using NPat.inst_isEmpty [] (by simp) a h1)
-          (by simpa [TTerm.body] using h1)
-      · simp at ht
+      simp only [Option.some.injEq] at ht; subst ht
+      exact sim_inst_core s m _ [] (Or.inl rfl) (.proved a) (.proved a) st st [] hR hSh hC hnd
+        hs (by simp [PySt.takePlugs]) (by simp) rfl
+        (by simpa [TTerm.body] using NPat.inst_isEmpty [] (by simp) a h1)
+        (by simpa [TTerm.body] using h1)
     · split at ht
       · simp at ht
       · next plugs st' htp =>
